@@ -1767,6 +1767,74 @@ func (h *vC09H) scenario(kind string) {
 		}
 		h.run(h.honest(), vC09Faults{})
 
+	case "multirev":
+		// several live anchors; a response in which a SUBSET of them carries the REVOKE bit and only a
+		// sub-subset of those is self-signed (every combination is reachable), fully authenticated (a
+		// non-revoked anchor co-signs) or accepted in revocation-only mode (no non-revoked anchor signs,
+		// signatures of non-revoked anchors absent or present but broken).  A revocation takes effect only
+		// on a valid self-signature made with THAT key: every other anchor stays, nothing else is recorded.
+		na := 2 + r.Intn(3)
+		anchors := make([]vC09Sym, na)
+		for i := range anchors {
+			anchors[i] = h.fresh(&next)
+		}
+		h.pub = append([]vC09Sym(nil), anchors...)
+		h.start(anchors)
+		h.run(h.honest(), vC09Faults{})
+		if r.Intn(4) == 0 {
+			h.unpublish(anchors[na-1]) // one anchor is Missing when the revocations arrive
+			h.run(h.honest(), vC09Faults{})
+		}
+		rounds := 1 + r.Intn(2)
+		for round := 0; round < rounds; round++ {
+			mask := 1 + r.Intn(1<<na-1) // which anchors carry REVOKE (non-empty)
+			signed := r.Intn(1 << na)  // which of them self-sign (any subset, possibly none)
+			if h.idx < len(vC09Kinds) {
+				mask, signed = 3, 1 // walk-through instance: {A+REVOKE self-signed, B+REVOKE unsigned}
+			}
+			mode := r.Intn(3) // 0 revocation-only, 1 revocation-only with broken co-signatures, 2 fully authenticated
+			if h.idx < len(vC09Kinds) {
+				mode = 0
+			}
+			var fe vC09Fetch
+			for i, a := range anchors {
+				if mask&(1<<i) != 0 {
+					fe.keys = append(fe.keys, vC09Rev(a))
+					if signed&(1<<i) != 0 {
+						fe.sigs = append(fe.sigs, vC09Sig{signer: vC09Rev(a)})
+					} else if r.Intn(3) == 0 {
+						fe.sigs = append(fe.sigs, vC09Sig{signer: vC09Rev(a), bad: true})
+					}
+				} else if h.pubIndex(a) >= 0 || r.Intn(2) == 0 {
+					fe.keys = append(fe.keys, a)
+					switch mode {
+					case 1:
+						fe.sigs = append(fe.sigs, vC09Sig{signer: a, bad: true})
+					case 2:
+						fe.sigs = append(fe.sigs, vC09Sig{signer: a})
+					}
+				}
+			}
+			if r.Intn(4) == 0 {
+				fe.keys = append(fe.keys, h.fresh(&next)) // a new key rides along
+			}
+			fl := vC09Faults{}
+			if h.idx >= len(vC09Kinds) && r.Intn(3) == 0 {
+				fl = h.pickFaults()
+			}
+			h.run(fe, fl)
+			h.maybeCrash(&next)
+			// the world moves on: what was validly revoked stays published in revoked form
+			for i, a := range anchors {
+				if mask&(1<<i) != 0 && signed&(1<<i) != 0 {
+					h.revoke(a)
+				}
+			}
+		}
+		h.run(h.honest(), vC09Faults{})
+		h.restart(anchors)
+		h.run(h.honest(), vC09Faults{})
+
 	case "dualflags":
 		// one public key tracked under two flags values (two key tags, two anchor-table entries of one
 		// key material): configured and published, configured only (goes Missing, still trusted) or
@@ -2044,6 +2112,8 @@ var vC09Kinds = []struct {
 	{"twinrev", 8, "", "hist"},
 	// the defect repaired by 3c40407: strict since the fix landed
 	{"dualflags", 5, "", "hist"},
+	// several REVOKE-flagged anchors in one response, only a subset self-signed (seeded change C09-10)
+	{"multirev", 12, "", "hist"},
 }
 
 func TestVerifC09AutoTA(t *testing.T) {
@@ -2194,6 +2264,38 @@ func TestVerifC09AutoTA(t *testing.T) {
 				emit(map[string]any{"k": "keytag", "nontrivial": true,
 					"coq":  fmt.Sprintf("CTag %d %d %d [%s] %d", rr.Flags, rr.Protocol, rr.Algorithm, strings.Join(octs, ";"), tag),
 					"desc": map[string]any{"index": -1000 - m, "kind": "keytag", "flags": rr.Flags, "key": rr.PublicKey, "tag": tag}})
+			}
+		}
+	}
+	// ... and on keys longer than one 192-octet chunk (RSA-2048 = 260 octets of RDATA key material, RSA-4096 = 516),
+	// at and around the chunk boundaries; KeyTag only sums octets, so random material under algorithm 8 will do
+	if replayIdx < 0 {
+		tr := rand.New(rand.NewSource(seed*983 + 11))
+		for li, ln := range []int{1, 2, 191, 192, 193, 260, 383, 384, 385, 516, 1030} {
+			raw := make([]byte, ln)
+			for i := range raw {
+				raw[i] = byte(tr.Intn(256))
+			}
+			if li%3 == 0 {
+				for i := range raw {
+					raw[i] = 0xff // the largest sums
+				}
+			}
+			octs := make([]string, len(raw))
+			for i, b := range raw {
+				octs[i] = strconv.Itoa(int(b))
+			}
+			for _, fl := range []uint16{257, 385} {
+				rr := &dns.DNSKEY{Hdr: dns.RR_Header{Name: ".", Rrtype: dns.TypeDNSKEY, Class: dns.ClassINET, Ttl: 3600},
+					Flags: fl, Protocol: 3, Algorithm: dns.RSASHA256, PublicKey: base64.StdEncoding.EncodeToString(raw)}
+				tag := dnssec.KeyTag(rr)
+				go_fail := ""
+				if lib := rr.KeyTag(); lib != tag {
+					go_fail = fmt.Sprintf("dnssec.KeyTag=%d, miekg KeyTag=%d", tag, lib)
+				}
+				emit(map[string]any{"k": "keytag-long", "nontrivial": true, "go_fail": go_fail,
+					"coq":  fmt.Sprintf("CTag %d %d %d [%s] %d", rr.Flags, rr.Protocol, rr.Algorithm, strings.Join(octs, ";"), tag),
+					"desc": map[string]any{"index": -2000 - ln, "kind": "keytag-long", "flags": rr.Flags, "octets": ln, "tag": tag}})
 			}
 		}
 	}
